@@ -609,6 +609,9 @@ def _zero_block(prog, cn, fld, idx, value):
             and value[3][1][1] == ("g", "bytes") and len(value[3][1][2]) == 1:
         n = value[3][1][2][0]  # array('B', bytes(n)): n zero bytes
         return True, (length_ok(n) and not mapped) if upper is None else n == upper
+    if value[0] == "call" and value[1] in (("g", "bytes"), ("g", "bytearray")) and len(value[2]) == 1 and mapped:
+        n = value[2][0]  # bytes(n) stored into a slice of the mapping: n zero bytes (a mapping takes a bytes-like object of the slice's length)
+        return True, (upper is not None and n == upper)
     if not (value[0] == "nary" and value[1] == "*" and len(value[2]) == 2):
         return False, False
     arr = [x for x in value[2] if x[0] == "newb" and x[1] == "array"]
